@@ -81,8 +81,8 @@ def file_reader(filename: str) -> CrystalMap:
         structure = Structure(title=name, lattice=Lattice(*abcABG))
         phases["structures"].append(structure)
 
-    # Read all file data
-    file_data = np.loadtxt(filename)
+    # Read all file data (2D also when the file has a single data line)
+    file_data = np.loadtxt(filename, ndmin=2)
 
     # Get vendor and column names
     vendor, column_names = _get_vendor_columns(header, file_data.shape[1])
